@@ -468,7 +468,60 @@ def _show(f, lin):
     return " ".join(out) or "0"
 
 
+def check_rewind(P, R):
+    """RF-rewind: a fill starts a new window (the line count is zeroed on entry); the reader's position in the window must be zeroed
+    on every path that hands the window out (returns 0), or the first lines of the new window are skipped"""
+    rule = "RF-rewind"
+    tu = P.tu("prchunk.c")
+    fn = tu.func("prchunk_fill")
+    if fn is None:
+        raise AnalysisBroken("prchunk_fill vanished")
+    ctx = fn.params[0]["d"]
+    zeroed = []
+    for x in fn.walk():
+        if x.get("k") == "BinaryOperator" and x.get("op") == "=" and const_of(x["c"][1]) == 0:
+            l = strip(x["c"][0])
+            if l is not None and l.get("k") == "MemberExpr" and l.get("arrow") and l.get("c") and (strip(l["c"][0]) or {}).get("d") == ctx \
+                    and tu.types[l["t"]].get("int"):
+                zeroed.append((l.get("n"), x))
+    cfg = fn.cfg
+
+    def blk(n):
+        cur = n
+        while cur is not None:
+            if "i" in cur:
+                sb = cfg.stmt_block(cur["i"])
+                if sb is not None:
+                    return sb[0]
+            cur = fn.parent(cur)
+        return None
+    rets = [r for r in fn.walk() if r.get("k") == "ReturnStmt" and kids(r) and const_of(kids(r)[0]) == 0]
+    if not rets or len(zeroed) < 2:
+        raise AnalysisBroken("%s: the zeroing of the line count / reader position or the successful return of prchunk_fill not recognised" % rule)
+    # the count: zeroed before anything else (its block dominates every return); the position: the other one
+    count = [z for z in zeroed if all(cfg.dominates(blk(z[1]), blk(r)) for r in fn.walk() if r.get("k") == "ReturnStmt")]
+    other = set()       # members that also take other values here are bookkeeping of the fill itself (offsets), not the reader's position
+    for x in fn.walk():
+        if x.get("k") in ("BinaryOperator", "CompoundAssignOperator", "UnaryOperator") and x.get("op") in ("=", "+=", "-=", "++", "--"):
+            l = strip(x["c"][0])
+            if l is not None and l.get("k") == "MemberExpr" and l.get("arrow") and not (x.get("op") == "=" and const_of(x["c"][1]) == 0):
+                other.add(l.get("n"))
+    pos = [z for z in zeroed if (not count or z[0] != count[0][0]) and z[0] not in other]
+    if not count or not pos:
+        raise AnalysisBroken("%s: line count / reader position not told apart" % rule)
+    for r in rets:
+        if any(cfg.dominates(blk(z[1]), blk(r)) for z in pos):
+            R.ob(rule, "prchunk_fill: the successful return (line %s) is reached only through `ctx->%s = 0`" % (r.get("l"), pos[0][0]), True)
+        else:
+            R.finding(rule, fn, "return 0 (line %s)" % r.get("l"), "a path hands the new window out without zeroing the reader's position `%s` "
+                      "(zeroed at line %s only): the reader goes on from where it stood in the previous window and the first lines of this one "
+                      "are lost" % (pos[0][0], pos[0][1].get("l")), r)
+
+
 def check(P, R, tier):
+    import c10
+    c10.check_finder_start(P, R, "RF4-start")
+    check_rewind(P, R)
     check_window(P, R)
     check_pairing(P, R)
     check_sed(P, R)
